@@ -56,8 +56,9 @@ pub fn run(case: &Value, em: &mut Emitter) {
     }
 }
 
-const IDS: &[&str] = &["a", "b", "ab", "abc", "$", "_x", "é", "aé", "𝒳", "𝒳a", "㮏", "x㮏", "a\u{200d}b", "fn", "function2", "n1"];
-const NOT_IDS: &[&str] = &["1a", "a.b", "a b", "", "(", "a-b", "\u{200d}a"];
+const IDS: &[&str] = &["a", "b", "ab", "abc", "$", "_x", "é", "aé", "𝒳", "𝒳a", "㮏", "x㮏", "a\u{200d}b", "fn", "function2", "n1",
+                       "\u{2118}", "\u{212e}x", "\u{2160}", "\u{1885}1", "a\u{301}", "a\u{345}", "a\u{93e}b", "a\u{b7}", "a\u{387}", "a\u{203f}b", "A", "aB"];
+const NOT_IDS: &[&str] = &["1a", "a.b", "a b", "", "(", "a-b", "\u{200d}a", "\u{301}a", "\u{93e}a", "\u{345}", "\u{b7}a", "\u{203f}", "\u{b2}", "a\u{b2}"];
 
 pub fn gen(rng: &mut Rng, size: usize) -> Value {
     // a minified program: several functions per line, several lines; tokens on keywords, names and bodies
@@ -66,6 +67,7 @@ pub fn gen(rng: &mut Rng, size: usize) -> Value {
     let mut toks: Vec<Value> = vec![];
     let mut names: Vec<Value> = vec![];
     let budget_family = rng.chance(1, 12);
+    let mut used: Vec<&str> = vec![];
     for l in 0..nlines {
         let mut s = String::new();
         let u16len = |s: &str| s.encode_utf16().count();
@@ -74,6 +76,7 @@ pub fn gen(rng: &mut Rng, size: usize) -> Value {
             if rng.chance(1, 3) { s.push_str(*rng.pick(&["/*😍*/", "var é=1;", "}", " ", "x=\"㮏\";"])); }
             let sep = *rng.pick(&[" ", "  ", "\t", "\u{a0}", "\u{2028}", "\u{3000}", "\u{b}", " \u{2003}"]);
             let id = *rng.pick(IDS);
+            used.push(id);
             // keyword token
             if rng.chance(9, 10) { toks.push(json!([l, u16len(&s), 0, toks.len(), 0, -1, 0])); }
             s.push_str("function");
@@ -82,8 +85,13 @@ pub fn gen(rng: &mut Rng, size: usize) -> Value {
             let col = if rng.chance(1, 5) { u16len(&s) - 1 } else { u16len(&s) };
             // sometimes an extra token at an arbitrary column of the text so far (possibly inside a surrogate pair)
             if rng.chance(1, 4) && u16len(&s) > 2 { let c = rng.below(u16len(&s) as u64 - 1); toks.push(json!([l, c, 0, toks.len(), 0, -1, 0])); }
-            names.push(json!(format!("orig_{}_{}", id, toks.len())));
-            toks.push(json!([l, col, 0, toks.len(), 0, names.len() - 1, 0]));
+            if rng.chance(1, 6) {
+                // a declaration whose token carries NO name (the same minified identifier may be declared again elsewhere)
+                toks.push(json!([l, col, 0, toks.len(), 0, -1, 0]));
+            } else {
+                names.push(json!(format!("orig_{}_{}", id, toks.len())));
+                toks.push(json!([l, col, 0, toks.len(), 0, names.len() - 1, 0]));
+            }
             s.push_str(id);
             s.push_str("(){");
             // body tokens
@@ -98,7 +106,8 @@ pub fn gen(rng: &mut Rng, size: usize) -> Value {
         lines.push(s);
     }
     if rng.chance(1, 10) { toks.push(json!([nlines + 1, 0, 0, toks.len(), 0, -1, 0])); }       // token on a missing line
-    let name = if rng.chance(1, 6) { *rng.pick(NOT_IDS) } else { *rng.pick(IDS) };
+    // the minified name asked for: mostly one that is declared in the text
+    let name = if rng.chance(1, 6) { *rng.pick(NOT_IDS) } else if rng.chance(3, 4) { *rng.pick(&used) } else { *rng.pick(IDS) };
     let qs: Vec<Value> = (0..6).map(|_| { let t = rng.pick(&toks); json!([t[0], t[1].as_u64().unwrap() + rng.below(2)]) }).collect();
     json!({"op": "resolve", "lines": lines.iter().map(|s| cps(s)).collect::<Vec<_>>(), "toks": toks, "names": names, "name": cps(name), "qs": qs})
 }
